@@ -606,7 +606,29 @@ def rule_final_snapshot_order(ctx, rule='R08.10'):
     ctx.covered(rule, 'the final snapshot of integrate() is written after the full step size has been put back', n, floor=1)
 
 
+def rule_halt_unconditional(ctx, rule='R08.13'):
+    """R08.13: integrate() reports a halting collision at the first step boundary at which it is found. The resolver that
+    halts (reb_collision_resolve_halt) therefore sets r->status = REB_STATUS_COLLISION on every path: it has no precondition
+    on the two particles (an "already handled at this time" exit copied from the merging resolver skips collisions found at
+    t equal to the particles' initial last_collision = 0)."""
+    from . import pathcond
+    tu = cfront.load_tu('collision.c')
+    fn = tu.func('reb_collision_resolve_halt')
+    pc = pathcond.conditions(fn)
+    n = 0
+    for e in walk(cfront.body(fn)):
+        if is_assign(e) and render(e['inner'][0]).replace(' ', '') == 'r.status' and 'REB_STATUS_COLLISION' in render(e['inner'][1]):
+            n += 1
+            cs = pc.get(id(e), [])
+            if cs:
+                ctx.report(rule, 'halt:conditional', 'src/collision.c:%s reb_collision_resolve_halt' % line_of(e),
+                           'the halting resolver sets the collision status only if %s: a collision that does not satisfy this is found by the search and silently ignored, integrate() runs on' % cs)
+    anchor(n == 1, 'reb_collision_resolve_halt sets r->status = REB_STATUS_COLLISION')
+    ctx.covered(rule, 'the halting collision resolver sets the status on every path', n, floor=1)
+
+
 def run(ctx):
+    rule_halt_unconditional(ctx)
     from . import edges
     edges.rule_last_done_is_last(ctx, 'R08.11')      # the step size integrate() restores is the user's
     edges.rule_time_direction(ctx, 'R08.12')         # time may be negative and may run backwards: collision times and t = 0
